@@ -272,3 +272,19 @@ Proof.
   exists 1%nat, [(0%nat, true); (0%nat, true)]. eexists. eexists. split; [vm_compute; reflexivity|].
   intro H. inversion H as [|x l Hin _]; subst. apply Hin. left. reflexivity.
 Qed.
+
+(* a body that reaches an import of its own module while it runs: the body returns twice and the two
+   imports get different objects (known finding D12r) *)
+Theorem reentrant_body_refuted :
+  exists e s v,
+    exec_nested 10 (init_tstate 1) e = (s, v) /\ ~ NoDup (t_done s) /\
+    (* the inner import saw object 1, the cache ends with object 3 *)
+    nth_error (t_cache s) 0 = Some (Some 3%Z) /\
+    fst (exec_nested 10 (init_tstate 1) (IEv 0 false [])) <> s.
+Proof.
+  exists (IEv 0%nat false [IEv 0%nat false []]). eexists. eexists.
+  split; [vm_compute; reflexivity|]. split; [|split].
+  - intro H. inversion H as [|x l Hin _]; subst. apply Hin. left. reflexivity.
+  - reflexivity.
+  - vm_compute. intro H. discriminate H.
+Qed.
